@@ -170,6 +170,17 @@ claim("C11", "exploration",
       "KF-C11-fma-overflow-fallback (fix_overflow=True drops the product's error term).",
       "DESIGN.md section 3 C11")
 
+claim("C17", "exploration",
+      "differential monitor of the real reductions against multiprecision reconstruction; float16 exhaustive, continued-fraction hard cases",
+      "argument_reduction_exponent and argument_reduction_trigonometric run through NumpyContext on every finite float16 of their domains and, for "
+      "float32/float64, on random bit patterns, +-8-ulp neighbourhoods of k*ln2, (k+1/2)*ln2 and k*pi/2 over the whole reachable k range, "
+      "continued-fraction worst cases (floats d*2^e closest to multiples of ln2 / pi/2 in every binade), the pi/4 transition, domain edges and "
+      "subnormals, both signs. Oracle at 4*(p + exponent span) bits: k integral / in {0..3}; |r+c| <= 0.55 ln2, |r| <= 1.1 pi/4; k*ln2 + (r+c) within 1 ULP "
+      "of x; x - k*pi/2 - (r+t) a multiple of 2*pi within 1 ULP (10 in float16) of the remainder.",
+      "Trusted: mpmath pi / ln2 at the working precision. Trig domain |x| <= largest/2^j (j = 2, 5, 18) as in the repository's own test. Two known findings on "
+      "the trigonometric reduction (2/pi multiword truncated at the smallest subnormal; ~2^-2p absolute accuracy of the remainder).",
+      "DESIGN.md section 3 C17")
+
 SOURCE_COMMITS = []
 
 
